@@ -65,3 +65,17 @@ claim(
     'abstraction applies (year only under % k, k | 400; values only compared).',
     'regex language inclusion vs HTML grammars + finite-domain abstract evaluation of the validators',
 )
+
+claim(
+    'C03',
+    'Decided: (R1, exact) each of the six module-level wrappers passes pattern, namespaces, flags, custom and '
+    '**kwargs to compile() in the right slot and returns the same-named method applied to the call target (+ limit); '
+    '(R2) the top-level selector list is evaluated only inside CSSMatch.match, every verdict of CSSMatch.select/'
+    'closest/filter is CSSMatch.match, select = list(iselect), select_one = select(limit=1), select walks the tag '
+    'descendants of the target; (R3) CSSMatch.match cannot be true for the document object or a non-Tag (three-valued '
+    'path evaluation), the target is validated with TypeError; (R4) every SoupSieve method builds its matcher scoped on '
+    'its call target from the same fields. Not decided: document order/no duplicates, the limit arithmetic, :scope on '
+    'the document object.',
+    'Necessary conditions except R1, which is the forwarding clause itself.',
+    'AST forwarding/funnel rules + three-valued path evaluation of guard necessity',
+)
